@@ -40,5 +40,17 @@ theorem fp_server_server_LockServer_Lock : Facts.fp_server_server_LockServer_Loc
 theorem fp_server_server_LockServer_TryLock : Facts.fp_server_server_LockServer_TryLock = "0ae939aca2e2a058" := rfl
 /-- server/server.go: LockServer.Unlock -/
 theorem fp_server_server_LockServer_Unlock : Facts.fp_server_server_LockServer_Unlock = "b03d29042086a906" := rfl
+/-- server/server.go: LockServer.onTimeoutFunc -/
+theorem fp_server_server_LockServer_onTimeoutFunc : Facts.fp_server_server_LockServer_onTimeoutFunc = "ee575fb2d063557f" := rfl
+/-- timermap/timermap.go: New -/
+theorem fp_timermap_timermap_New : Facts.fp_timermap_timermap_New = "7bfa6bb474b5152d" := rfl
+/-- timermap/timermap.go: TimerMap.Add -/
+theorem fp_timermap_timermap_TimerMap_Add : Facts.fp_timermap_timermap_TimerMap_Add = "d8c62d0874a15c32" := rfl
+/-- timermap/timermap.go: TimerMap.Remove -/
+theorem fp_timermap_timermap_TimerMap_Remove : Facts.fp_timermap_timermap_TimerMap_Remove = "ce8fae6c7455bbd4" := rfl
+/-- timermap/timermap.go: TimerMap.Reset -/
+theorem fp_timermap_timermap_TimerMap_Reset : Facts.fp_timermap_timermap_TimerMap_Reset = "6e63112ea24222fa" := rfl
+/-- timermap/timermap.go: TimerMap.shutdown -/
+theorem fp_timermap_timermap_TimerMap_shutdown : Facts.fp_timermap_timermap_TimerMap_shutdown = "c7c679c3e023a667" := rfl
 
 end Ldlm.Pins.FP.C02
